@@ -419,6 +419,13 @@ func (a *SidecarNegotiator) autoSidecarReceiver(ctx context.Context,
 				}
 			}
 
+			// The ticket is final now and TicketExecuted stops the
+			// negotiator right after the hand-off. We must not
+			// handle any packet that is still buffered, as that
+			// could overwrite the final ticket state on disk (or
+			// even submit the order of a canceled ticket).
+			return
+
 		case <-a.quit:
 			return
 		}
@@ -722,6 +729,13 @@ func (a *SidecarNegotiator) autoSidecarProvider(ctx context.Context,
 					return
 				}
 			}
+
+			// The ticket is final now and TicketExecuted stops the
+			// negotiator right after the hand-off. We must not
+			// handle any packet that is still buffered, as that
+			// could overwrite the final ticket state on disk (or
+			// even submit the order of a canceled ticket).
+			return
 
 		case <-a.quit:
 			return
